@@ -74,9 +74,21 @@ type Case struct {
 	// URLParams: number (0..3) of static URLParamOpts the ONE shared AuthURLHandler / CodeExchangeHandler are built with
 	URLParams int `json:"url_params,omitempty"`
 
+	// Cfg: the op.Config of the shared provider (nil: the zero configuration, see config_test.go).
+	// Side: further providers with configurations of their own that live in the same process and are asked (discovery, keys,
+	// device authorization) by the same goroutines; nothing touches them before the goroutines start.
+	Cfg  *ProvCfg   `json:"cfg,omitempty"`
+	Side []SideProv `json:"side,omitempty"`
+
 	// order
 	Steps   []Step           `json:"steps,omitempty"`
 	Clients []SuppliedClient `json:"clients,omitempty"` // the caller-supplied http clients of the case (default: two plain ones)
+}
+
+// SideProv is one further provider of a concurrent case.
+type SideProv struct {
+	Router string   `json:"router,omitempty"`
+	Cfg    *ProvCfg `json:"cfg,omitempty"`
 }
 
 // SuppliedClient describes one caller-supplied *http.Client (its Transport is always the in-process one).
@@ -119,6 +131,9 @@ var opKinds = map[string]opInfo{
 	"poll_pending":  {2, true},
 	"poll_denied":   {1, true},
 	"poll_approved": {4, true}, // several goroutines poll the SAME approved device code
+	// requests to the providers that share the process (twin run; the device authorization answers are also judged together after the join)
+	"devauth": {6, true}, // one device authorization request on the shared provider or a side provider
+	"xdisc":   {5, true}, // discovery document / key set of a side provider
 	"bad":           {2, true},
 	"authorize_err": {2, true},
 	// requests that end in an error path, judged by the twin run (errops_test.go)
@@ -157,11 +172,12 @@ var opKinds = map[string]opInfo{
 
 // kinds that need nothing prepared: usable in a cold case
 var coldKinds = map[string]bool{"disc": true, "keys": true, "flow": true, "cc": true, "bearer": true, "devflow": true, "bad": true, "authorize_err": true, "profile_token": true,
-	"cb_notdone": true, "cb_unknown": true, "az_err": true, "az_noredirect": true, "tok_err": true, "cred_err": true, "es_err": true}
+	"cb_notdone": true, "cb_unknown": true, "az_err": true, "az_noredirect": true, "tok_err": true, "cred_err": true, "es_err": true,
+	"devauth": true, "xdisc": true}
 
 // rapid prefers the low indexes of a SampledFrom list: the kinds that contend for client-side state come first
 var kindOrder = []string{
-	"rp_handler", "rp_handler_err", "rp_flow", "rp_endsession", "rp_revoke", "cb_notdone", "az_err", "discover_redir", "rp_verify", "ks_verify", "poll_approved", "flow", "rp_userinfo",
+	"rp_handler", "rp_handler_err", "rp_flow", "devauth", "xdisc", "rp_endsession", "rp_revoke", "cb_notdone", "az_err", "discover_redir", "rp_verify", "ks_verify", "poll_approved", "flow", "rp_userinfo",
 	"te_exchange", "rs_introspect", "rsjwt_introsp", "profile_token", "rp_device", "rp_cc", "rp_refresh_vol", "rp_authurl",
 	"devflow", "cc", "bearer", "te", "disc", "keys", "userinfo", "introspect", "code_shared", "refresh_vol", "revoke", "endsession",
 	"userinfo_vol", "poll_pending", "poll_denied", "bad", "authorize_err", "tok_err", "cred_err", "dead_tok", "es_err", "cb_unknown", "az_noredirect",
@@ -191,6 +207,12 @@ func genConc(t *rapid.T) Case {
 	c.JWTAT = rapid.Bool().Draw(t, "jwt_at")
 	c.URLParams = rapid.IntRange(0, 3).Draw(t, "url_params")
 	c.IssMode = rapid.SampledFrom([]string{"", "", "host", "fwd"}).Draw(t, "iss_mode")
+	if rapid.IntRange(0, 3).Draw(t, "owncfg") > 0 {
+		c.Cfg = genProvCfg(t, "cfg-")
+	}
+	for i, n := 0, rapid.SampledFrom([]int{0, 1, 2, 2, 3}).Draw(t, "sides"); i < n; i++ {
+		c.Side = append(c.Side, SideProv{Router: rapid.SampledFrom([]string{"provider", "legacy"}).Draw(t, "side-router"), Cfg: genProvCfg(t, fmt.Sprintf("side%d-", i))})
+	}
 	c.Sync = rapid.Bool().Draw(t, "lockstep")
 	c.Cold = rapid.IntRange(0, 2).Draw(t, "cold") == 0
 	if c.Cold {
@@ -245,6 +267,10 @@ type env struct {
 	sut    *vkit.SUT
 	drv    []driver // one per storage partition: 0 = sequential setup / re-runs, g+1 = goroutine g
 	rt     *inproc
+	built  *builtCfg    // the shared provider's op.Config and the slices it carries
+	sides  []*sideProv
+	owned0 snapshot     // the caller-owned configuration objects as they were handed to the constructors
+	devLog [][]devAnswer // per storage partition (so per goroutine): every device authorization answer the harness received
 	hc     *http.Client // THE caller-supplied client shared by every client-side instance
 	cookie *httphelper.CookieHandler
 	rp     rp.RelyingParty
@@ -289,7 +315,17 @@ func conClients(c Case) []*vkit.ClientSpec {
 	}
 }
 
-func buildSUT(router, alg, issMode string, storage op.Storage) (*vkit.SUT, error) {
+// sideProv is a further provider of the case, with its own storage, issuer and configuration.
+type sideProv struct {
+	name  string
+	iss   string
+	sut   *vkit.SUT
+	ps    *pstore
+	built *builtCfg
+	ags   []*vkit.Agent // one per storage partition
+}
+
+func buildSUT(router, alg, issMode string, storage op.Storage, cfg *op.Config, issuer string) (*vkit.SUT, error) {
 	issuerFn := op.StaticIssuer(issuer)
 	switch issMode {
 	case "host":
@@ -297,7 +333,7 @@ func buildSUT(router, alg, issMode string, storage op.Storage) (*vkit.SUT, error
 	case "fwd":
 		issuerFn = op.IssuerFromForwardedOrHost("")
 	}
-	p, err := op.NewProvider(newConfig(), storage, issuerFn, baseOpts(alg)...)
+	p, err := op.NewProvider(cfg, storage, issuerFn, baseOpts(alg)...)
 	if err != nil {
 		return nil, err
 	}
@@ -306,7 +342,7 @@ func buildSUT(router, alg, issMode string, storage op.Storage) (*vkit.SUT, error
 		paths[k] = v
 	}
 	// Store stays nil: the agent then does not enter vkit's journal (one more global lock per request)
-	sut := &vkit.SUT{Spec: vkit.DefaultProviderSpec(router), Provider: p, Paths: paths, Host: "op.example.com", Handler: p}
+	sut := &vkit.SUT{Spec: vkit.DefaultProviderSpec(router), Provider: p, Paths: paths, Host: hostOf(issuer), Handler: p}
 	if router == "legacy" {
 		sut.Handler = op.RegisterLegacyServer(op.NewLegacyServer(p, vkit.PristineEndpoints()), op.AuthorizeCallbackHandler(p), op.WithFallbackLogger(vkit.DiscardLogger()))
 	}
@@ -328,8 +364,36 @@ func newEnv(c Case) (*env, error) {
 		router = "provider"
 	}
 	var err error
-	if e.sut, err = buildSUT(router, alg, c.IssMode, e.ps); err != nil {
+	e.owned0 = snapshot{}
+	e.built = c.Cfg.build(issuer)
+	for k, v := range e.built.state("the-shared-provider") {
+		e.owned0[k] = v
+	}
+	if e.sut, err = buildSUT(router, alg, c.IssMode, e.ps, e.built.cfg, issuer); err != nil {
 		return nil, err
+	}
+	e.devLog = make([][]devAnswer, len(c.Progs)+1)
+	for i, sp := range c.Side {
+		if i == 3 {
+			break
+		}
+		s := &sideProv{name: fmt.Sprintf("side provider %d", i+1), iss: fmt.Sprintf("https://side%d.example.com", i+1)}
+		s.built = sp.Cfg.build(s.iss)
+		for k, v := range s.built.state(fmt.Sprintf("side-provider-%d", i+1)) {
+			e.owned0[k] = v
+		}
+		s.ps = newPStore(cl, vkit.SignKeySpec{KeyName: keyForAlg[alg], Alg: alg, KID: "sig1"}, nil, len(c.Progs)+1)
+		srouter := "provider"
+		if sp.Router == "legacy" {
+			srouter = "legacy"
+		}
+		if s.sut, err = buildSUT(srouter, alg, "", s.ps, s.built.cfg, s.iss); err != nil {
+			return nil, fmt.Errorf("%s: %w", s.name, err)
+		}
+		for k := 0; k <= len(c.Progs); k++ {
+			s.ags = append(s.ags, &vkit.Agent{S: s.sut, Host: s.sut.Host, Forwarded: fmt.Sprintf("by=part-%d", k)})
+		}
+		e.sides = append(e.sides, s)
 	}
 	for k := 0; k <= len(c.Progs); k++ {
 		e.drv = append(e.drv, driver{ag: &vkit.Agent{S: e.sut, Host: e.sut.Host, Forwarded: fmt.Sprintf("by=part-%d", k)}, iss: issuer, login: e.ps.Login})
@@ -594,6 +658,13 @@ func (e *env) doOp(o Op, tag string, part int, sync func()) (msg string) {
 		}
 		if ts.RT != "" {
 			r := ag.Token(url.Values{"grant_type": {vkit.GRefr}, "refresh_token": {ts.RT}}, vkit.RightCred(cl, issuer))
+			if e.c.Cfg != nil && e.c.Cfg.NoRefresh {
+				// the provider is configured without the refresh_token grant
+				if r.Panic != nil || r.Status < 400 || r.Status >= 500 || len(r.HasTokenMaterial()) > 0 {
+					return "refresh on a provider without the refresh_token grant: " + r.Describe()
+				}
+				return ""
+			}
 			if !r.Success() || r.Str("access_token") == "" {
 				return "refresh of the own token: " + r.Describe()
 			}
@@ -646,6 +717,7 @@ func (e *env) doOp(o Op, tag string, part int, sync func()) (msg string) {
 		if !d.Success() || dc == "" {
 			return "device authorization: " + d.Describe()
 		}
+		e.devLog[part] = append(e.devLog[part], devAnswerOf("the shared provider", "request "+tag, d))
 		form := url.Values{"grant_type": {vkit.GDevice}, "device_code": {dc}}
 		if p := ag.Token(form, cred); p.OAuthError() != "authorization_pending" {
 			return "poll before approval: " + p.Describe()
@@ -757,6 +829,12 @@ func (e *env) doOp(o Op, tag string, part int, sync func()) (msg string) {
 		}
 		if o.B&2 == 2 {
 			nt, err := rp.RefreshTokens[*oidc.IDTokenClaims](ctx, e.rp, tokens.RefreshToken, "", "") // refreshed id tokens carry no nonce
+			if e.c.Cfg != nil && e.c.Cfg.NoRefresh {
+				if err == nil {
+					return "RefreshTokens succeeded on a provider without the refresh_token grant"
+				}
+				return ""
+			}
 			if err != nil || nt.AccessToken == "" {
 				return fmt.Sprintf("RefreshTokens: %v", err)
 			}
@@ -813,6 +891,7 @@ func (e *env) doOp(o Op, tag string, part int, sync func()) (msg string) {
 		if err != nil || d.DeviceCode == "" {
 			return fmt.Sprintf("DeviceAuthorization: %v", err)
 		}
+		e.devLog[part] = append(e.devLog[part], devAnswerOfResp("the shared provider", "request "+tag+" (rp.DeviceAuthorization)", d))
 		user := pick(users, o.A)
 		e.ps.ApproveDevice(part, d.DeviceCode, user)
 		sync()
@@ -1020,6 +1099,7 @@ func (e *env) setup(res *vkit.Result) string {
 		if !d.Success() || d.Str("device_code") == "" {
 			return "", "device authorization: " + d.Describe()
 		}
+		e.devLog[0] = append(e.devLog[0], devAnswerOf("the shared provider", fmt.Sprintf("setup request %d", len(e.devLog[0])), d))
 		return d.Str("device_code"), ""
 	}
 	var m string
@@ -1121,6 +1201,15 @@ type opResult struct {
 func runConc(c Case) *vkit.Result {
 	res := &vkit.Result{}
 	res.Label("kind:conc", "router:"+c.Router, "alg:"+c.SignAlg, fmt.Sprintf("jwt_at:%v", c.JWTAT), fmt.Sprintf("goroutines:%d", len(c.Progs)), fmt.Sprintf("lockstep:%v", c.Sync), fmt.Sprintf("cold:%v", c.Cold), fmt.Sprintf("handler-url-params:%d", c.URLParams), "issuer-mode:"+map[string]string{"": "static", "host": "host", "fwd": "forwarded"}[c.IssMode])
+	res.Label(c.Cfg.labels("shared-provider-config")...)
+	res.Label(fmt.Sprintf("side-providers:%d", min(len(c.Side), 3)))
+	for _, sp := range c.Side {
+		res.Label(sp.Cfg.labels("side-provider-config")...)
+	}
+	// every case starts from the package-level default lists as they were when the binary started
+	restoreDefaultLists()
+	defer restoreDefaultLists()
+	globals0 := takeGlobals()
 	e, err := newEnv(c)
 	if err != nil {
 		res.Fail("C20:setup", "environment could not be built: %v", err)
@@ -1230,7 +1319,15 @@ func runConc(c Case) *vkit.Result {
 				if c.Cold && twinNeedsPools(r.op) {
 					continue
 				}
-				res.Label(fmt.Sprintf("error-path:%s/%d", r.op.K, ((r.op.A%n)+n)%n))
+				if r.op.K == "devauth" || r.op.K == "xdisc" {
+					res.Label(fmt.Sprintf("shared-process-request:%s/%d", r.op.K, min(((r.op.A%n)+n)%n, len(e.sides))))
+				} else {
+					res.Label(fmt.Sprintf("error-path:%s/%d", r.op.K, ((r.op.A%n)+n)%n))
+				}
+				if strings.HasPrefix(r.msg, "NOT-OWN-CONFIG ") {
+					res.Fail(fpNotOwnConfig, "goroutine %d op %d (%+v), asked while %d providers with configurations of their own share the process: %s", r.g, r.i, r.op, 1+len(e.sides), strings.TrimPrefix(r.msg, "NOT-OWN-CONFIG "))
+					continue
+				}
 				// the same request (same tag, so the same state and markers) alone, now that every goroutine has finished
 				seqMsg, seqObs := e.doOpObs(r.op, fmt.Sprintf("g%d-o%d", r.g, r.i), 0, func() {})
 				switch {
@@ -1282,6 +1379,34 @@ func runConc(c Case) *vkit.Result {
 			}
 		}
 	}
+	// all device authorization answers of the case, whoever asked: each carries its own codes only, and one provider
+	// answers all of them alike
+	var devAll []devAnswer
+	for _, l := range e.devLog {
+		devAll = append(devAll, l...)
+	}
+	judgeDevAnswers(res, devAll)
+	res.Label(fmt.Sprintf("device-authorization-answers:%d+", min(len(devAll)/5*5, 30)))
+	// package-level defaults and the configuration objects handed to the constructors hold what they held before the case
+	globals1, owned1 := takeGlobals(), snapshot{}
+	for k, v := range e.built.state("the-shared-provider") {
+		owned1[k] = v
+	}
+	for i, sp := range e.sides {
+		for k, v := range sp.built.state(fmt.Sprintf("side-provider-%d", i+1)) {
+			owned1[k] = v
+		}
+	}
+	for _, name := range globals0.diff(globals1) {
+		res.Fail("C20:state-changed:"+rootOf(name)+":concurrent-case", "%s: %s -> %s (between the start of the case and the end of its concurrent phase)", name, globals0[name], globals1[name])
+	}
+	for _, name := range e.owned0.diff(owned1) {
+		root := name
+		if i := strings.Index(name, "-of-"); i > 0 {
+			root = name[:i]
+		}
+		res.Fail("C20:state-changed:caller's-"+root+":concurrent-case", "%s: %s -> %s (between its hand-over to the constructor and the end of the concurrent phase)", name, e.owned0[name], owned1[name])
+	}
 	var ks, ps []string
 	for k := range kinds {
 		ks = append(ks, k)
@@ -1293,6 +1418,12 @@ func runConc(c Case) *vkit.Result {
 	sort.Strings(ps)
 	res.NonTrivial = len(c.Progs) >= 2 && total >= 4
 	res.Key = fmt.Sprintf("conc|%s|%s|%s|%v|%v|%v|%d|%s", c.Router, c.SignAlg, c.IssMode, c.JWTAT, c.Sync, c.Cold, len(c.Progs), strings.Join(ps, ","))
+	if c.Cfg != nil || len(c.Side) > 0 {
+		res.Key += "|" + c.Cfg.key()
+		for _, sp := range c.Side {
+			res.Key += "|" + sp.Router + sp.Cfg.key()
+		}
+	}
 	res.Info = map[string]any{"ops": total, "kinds": ks, "guards": map[string]bool{"checkredirect": e.guardCR, "getaudience": e.guardAud}, "failed_alone_too": alsoAlone}
 	return res
 }
